@@ -470,6 +470,28 @@ func main() {
 			c.NonTrivial()
 		}
 	})
+	// strings that need escaping, in every slot of a feature that holds a string
+	special := []string{"", "unit\x1fsep", "bell\a", "del\x7f", "q\"uote", "back\\slash", "tab\t\n\r", "é", "\U0001F600", "\u2028\u2029", "<&>", "\b\f\x00x"}
+	r.Explore("feature-strings", fmt.Sprintf("%d strings (control characters, DEL, quote, backslash, line separators, astral runes, NUL) x 3 slots (id, property key, property value) x 2 geometries: JSON and BSON round trip", len(special)), mc.Opts{MaxDev: -1}, func(c *mc.Ctx) {
+		str := special[c.Choose(len(special))]
+		slot := c.Choose(3)
+		f := geojson.NewFeature(featureGeoms[c.Choose(2)])
+		switch slot {
+		case 0:
+			f.ID = str
+		case 1:
+			if strings.ContainsRune(str, 0) {
+				c.Skip() // a BSON element name cannot hold NUL (cstring)
+				return
+			}
+			f.Properties[str] = 1.0
+		case 2:
+			f.Properties["k"] = str
+			f.Properties["nested"] = map[string]interface{}{"a": []interface{}{str}}
+		}
+		checkFeature(c, f)
+		c.NonTrivial()
+	})
 	// feature collections, with the harness owning map iteration order inside package geojson
 	var cur *mc.Ctx
 	mcrt.PermHook = func(site, n int) []int {
@@ -493,8 +515,10 @@ func main() {
 	}
 	extras := []map[string]interface{}{nil, {"x": 1.5}, {"meta": map[string]interface{}{"a": []interface{}{1.0, nil}, "": "s"}}, {"x": "s", "y": true, "z": nil},
 		// names that differ from the reserved ones only by case, and names reserved at other levels
-		{"Type": "custom"}, {"BBox": []interface{}{1.0, 2.0}, "TYPE": 7.0}, {"Features": "none"}, {"geometry": nil, "properties": map[string]interface{}{"a": 1.0}, "id": 3.0, "coordinates": []interface{}{}}}
-	r.Explore("feature-collections", "collections of 0..2 features x 8 foreign-member sets (incl. case variants of the reserved names) x bbox, JSON and BSON, under every iteration order of the map ranges in package geojson (<= 4 keys)", mc.Opts{MaxDev: ev.Pick(r, 4, 5), Workers: 1}, func(c *mc.Ctx) {
+		{"Type": "custom"}, {"BBox": []interface{}{1.0, 2.0}, "TYPE": 7.0}, {"Features": "none"}, {"geometry": nil, "properties": map[string]interface{}{"a": 1.0}, "id": 3.0, "coordinates": []interface{}{}},
+		// names and values that need escaping in JSON: control characters, DEL, quotes, separators, astral runes
+		{"unit\x1fsep": "v\x1f", "bell\a": 1.0}, {"del\x7f": "\x7f", "q\"\\": "é\U0001F600\u2028<&>"}, {"tab\t\n": "line\r\n", "\U0001F600": "\b\f"}}
+	r.Explore("feature-collections", "collections of 0..2 features x 11 foreign-member sets (incl. case variants of the reserved names and names / values that need JSON escaping) x bbox, JSON and BSON, under every iteration order of the map ranges in package geojson (<= 4 keys)", mc.Opts{MaxDev: ev.Pick(r, 4, 5), Workers: 1}, func(c *mc.Ctx) {
 		fc := geojson.NewFeatureCollection()
 		for i, k := 0, c.Choose(3); i < k; i++ {
 			fc.Append(genFeature(c))
